@@ -5,7 +5,11 @@ with the Lean model (`C18 summary`, `C18 agg`).
 Oracle (on the IMPLEMENTATION's files): (1) the Lean-checked spec `C18 check` / `C18 aggcheck` (proved sound:
 check = true -> the output is a descending rearrangement of the table the theorems are about), and (2) an independent
 recomputation of every clause with exact fractions, from the generator's own knowledge of which name is the label and
-which names are interactions of which constituents (NOT through the model's string parsing)."""
+which names are interactions of which constituents (NOT through the model's string parsing).
+Additional family E2E-summary (harness/corr_E2E.py `evaluate_summary`, DESIGN §11.2): generated CSV files through the real
+`outrank_task_conduct_ranking` FOLLOWED BY the real `outrank_task_result_summary`; `feature_singles.tsv` vs the composed Lean
+model `Pipeline.summaryOfFile` (C18 `summary` on the rows of `Pipeline.rankFile`'s table); its theorems
+(Props/PipelineSummary.lean) are built and audited with this check (`EXTRA_PROPS`)."""
 from __future__ import annotations
 
 import csv
@@ -18,9 +22,22 @@ import tempfile
 from fractions import Fraction
 from types import SimpleNamespace
 
+import corr_E2E
 from vp_common import Atom, Ctx, line, run_driver
 
 PROP = 'C18'
+EXTRA_PROPS = ['PipelineSummary']   # Props/PipelineSummary.lean: built, audited and counted with C18's obligations
+GEN_DEPENDENT = True                # the composed model scores with the dispatch table regenerated from the source (Gen/Dispatch.lean)
+
+
+def translate(ctx):
+    """the end-to-end model uses C05's regenerated dispatch table: re-read it from the tree under test"""
+    import c05_translate
+    from vp_common import LEAN_DIR, REPO
+    problems, _ = c05_translate.translate_repo(REPO, os.path.join(LEAN_DIR, 'OutrankModel', 'Gen', 'Dispatch.lean'))
+    ctx.tie_broken.extend(problems)
+
+
 RULE = ('triplet tables over 1..25 features (thorough: ..60) from one PRNG: plain and annotated names `f-(card; cov)`, label plain or '
         'annotated, 1..4 score rows per feature in one or both orientations, (label,label) rows, rows between non-label features, '
         'interaction features `a AND b[ AND c]`, scores = dyadic rationals (negative, ties, all-equal) or 17-digit floats, rows in '
@@ -29,14 +46,15 @@ RULE = ('triplet tables over 1..25 features (thorough: ..60) from one PRNG: plai
         'A separate stream violates the name preconditions (label containing "-", a feature named `label-x`, constituents with '
         '"-" or ending in " AND", plain names containing "AND"): there only model = code is compared and the cases are counted as '
         'excluded regions. Non-trivial = well-formed table with >= 2 features, >= 1 feature with >= 2 score rows and two different '
-        'medians; distinct = distinct (label, heuristic, order, rows).')
+        'medians; distinct = distinct (label, heuristic, order, rows). ' + corr_E2E.RULE_E2ES)
 ASSUMPTIONS = ['names must be well-formed (Props/C18.lean `WF`, `constituents_render`): the label contains no "-", no other name has the label as '
                'its part before the first "-", constituents of interactions contain neither "-" nor a space, non-interaction names do not contain "AND"',
                'min < max for the normalisation clause (the code computes 0/0 = NaN when all medians are equal; observed and counted, not judged)',
                'pandas sort_values (quicksort) is not stable: the order among equal scores is unspecified, tied runs are compared as multisets',
                'scores are finite; dyadic scores with short decimal expansions are parsed exactly by read_csv (medians then compared exactly); '
                '17-digit floats are compared with tolerance 1e-12 (read_csv\'s default float parser is not correctly rounded)',
-               'pandas read_csv/to_csv/groupby.median/sort_values and numpy.median are externals (modelled, exercised by the tie)']
+               'pandas read_csv/to_csv/groupby.median/sort_values and numpy.median are externals (modelled, exercised by the tie)'
+               ] + corr_E2E.ASSUMPTIONS_E2ES
 
 HEUR = ['MI-numba-randomized', 'AMI', 'surrogate-SGD', 'max-value-coverage', 'correlation-Pearson', 'MI', 'Constant', 'surrogate-MI-x']
 PLAIN = ['user_id', 'country', 'device_type', 'geo.city', 'Ünïcode', 'hour_of_day', 'x y', 'q"q', 'MIfeature', 'a_tr_log', 'ad-size',
@@ -513,6 +531,8 @@ def run(ctx: Ctx):
     n = 14000 if ctx.thorough() else 1800
     cases = corpus() + [gen_case(ctx.rng, ctx.thorough()) for _ in range(n)]
     evaluate(ctx, cases)
+    # end-to-end summary family (drawn last, so that the cases above do not depend on it)
+    corr_E2E.evaluate_summary(ctx, corr_E2E.corpus_summary() + corr_E2E.gen_summary_cases(ctx.rng, ctx.thorough()))
 
 
 def search(ctx: Ctx):
@@ -521,11 +541,15 @@ def search(ctx: Ctx):
     sub.rng.seed(f'search:{ctx.seed}')
     cases = [gen_case(sub.rng, True, family=sub.rng.choice(['wf', 'wf', 'retyped', 'floats'])) for _ in range(4000)]
     evaluate(sub, cases, oracle_only=True)
+    corr_E2E.evaluate_summary(sub, corr_E2E.corpus_summary() + corr_E2E.gen_summary_cases(sub.rng, True)[:80], oracle_only=True)
     return sub.oracle_failures
 
 
 def replay(ctx: Ctx, payload):
     c = payload['case']
+    if isinstance(c, dict) and c.get('e2e'):
+        corr_E2E.evaluate_summary(ctx, [c])
+        return
     c.setdefault('violates', None)
     evaluate(ctx, [c])
     im = run_impl(c)
